@@ -315,6 +315,8 @@ class Exec:
         self.max_arity = 3
         self.loop_bound = 12
         self.witness_fn = None
+        self.in_merge = False
+        self.merge_guards = []
         self.reset_path()
 
     # ---- path state ------------------------------------------------------
@@ -334,6 +336,8 @@ class Exec:
         self.ghost = {}
         self.inlined = set()
         self.used_contracts = set()
+        self.in_merge = False
+        self.merge_guards = []
         self.results = []
         self.lemma_done = set()
         self._journal_seen = 0
@@ -466,6 +470,13 @@ class Exec:
         """Fork on a (possibly symbolic) boolean; returns a Python bool."""
         if isinstance(cond, bool):
             return cond
+        if self.in_merge and is_sym_bool(cond):
+            c0 = z3.simplify(cond)
+            if z3.is_true(c0):
+                return True
+            if z3.is_false(c0):
+                return False
+            raise _MergeFail()
         if cond is None:
             return False
         if not is_sym_bool(cond):
@@ -777,13 +788,67 @@ class Exec:
 
     def st_If(self, st, fr):
         c = self.truth(self.eval(st.test, fr))
+        if is_sym_bool(c) and _mergeable_if(st):
+            if self._merge_if(st, c, fr):
+                return
+        if self.in_merge:
+            raise _MergeFail()
         if self.decide(c):
             self.exec_block(st.body, fr)
         else:
             self.exec_block(st.orelse, fr)
 
+    def _merge_if(self, st, c, fr):
+        """if/else whose branches only assign locals from pure expressions: executed
+        on both sides and joined with If(c, ., .) instead of forking the path."""
+        c = z3.simplify(c)
+        if z3.is_true(c) or z3.is_false(c):
+            return False
+        base = dict(fr.locs)
+        outer = self.in_merge
+        self.in_merge = True
+        try:
+            results = []
+            for guard, block in ((c, st.body), (z3.Not(c), st.orelse)):
+                fr.locs = dict(base)
+                self.merge_guards.append(guard)
+                try:
+                    self.exec_block(block, fr)
+                finally:
+                    self.merge_guards.pop()
+                results.append(fr.locs)
+        except _MergeFail:
+            fr.locs = base
+            self.in_merge = outer
+            return False
+        finally:
+            self.in_merge = outer
+        lb, le = results
+        merged = dict(base)
+        for name in set(lb) | set(le):
+            vb, ve = lb.get(name, _MISSING), le.get(name, _MISSING)
+            if vb is ve:
+                merged[name] = vb
+                continue
+            m = _ite(c, vb, ve)
+            if m is _MISSING:
+                fr.locs = base
+                return False
+            merged[name] = m
+        fr.locs = merged
+        return True
+
     def st_Assert(self, st, fr):
         c = self.truth(self.eval(st.test, fr))
+        if self.in_merge:
+            # inside a merged branch: fine only if the assertion cannot fail under the branch guards
+            if isinstance(c, bool):
+                if c:
+                    return
+                raise _MergeFail()
+            if self.feasible(z3.And(self.merge_guards + [z3.Not(c)])):
+                raise _MergeFail()
+            return
         if not self.decide(c):
             raise PyRaise(ExcVal("AssertionError"))
 
@@ -982,7 +1047,7 @@ class Exec:
                 cur = self.eval(nxt, fr)
                 continue
             # symbolic truth value
-            if isinstance(nxt, (ast.Constant, ast.Name)) and is_sym_bool(cur):
+            if _pure_expr(nxt) and is_sym_bool(cur):
                 # `b or False`, `a and b` on Booleans with a side-effect-free right operand: no fork
                 nv = self.eval(nxt, fr)
                 if isinstance(nv, bool) or is_sym_bool(nv):
@@ -1136,6 +1201,86 @@ class Exec:
         v = self.eval(e.value, fr)
         self.assign(e.target, v, fr)
         return v
+
+
+class _MergeFail(Exception):
+    pass
+
+
+_MISSING = object()
+
+
+def _ite(c, a, b):
+    """join of two values under condition c; _MISSING when they cannot be joined"""
+    if a is _MISSING or b is _MISSING:
+        return _MISSING
+    if isinstance(a, (bool, int, str, Fraction)) and isinstance(b, (bool, int, str, Fraction)) and type(a) == type(b) and a == b:
+        return a
+    try:
+        za = a if is_z3(a) else z3const(a)
+        zb = b if is_z3(b) else z3const(b)
+    except Unsupported:
+        return _MISSING
+    if za.sort() != zb.sort():
+        return _MISSING
+    return z3.If(c, za, zb)
+
+
+_PURE_CACHE = {}
+
+
+def _pure_expr(e):
+    """expression without calls / side effects (attribute reads of plain fields included)"""
+    k = id(e)
+    r = _PURE_CACHE.get(k)
+    if r is None:
+        if isinstance(e, (ast.Constant, ast.Name)):
+            r = True
+        elif isinstance(e, ast.Attribute):
+            r = isinstance(e.value, ast.Name)
+        elif isinstance(e, ast.BoolOp):
+            r = all(_pure_expr(v) for v in e.values)
+        elif isinstance(e, ast.UnaryOp):
+            r = isinstance(e.op, ast.Not) and _pure_expr(e.operand)
+        elif isinstance(e, ast.Compare):
+            r = _pure_expr(e.left) and all(_pure_expr(c) for c in e.comparators) and \
+                all(isinstance(o, (ast.Eq, ast.NotEq, ast.Lt, ast.LtE, ast.Gt, ast.GtE, ast.Is, ast.IsNot)) for o in e.ops)
+        elif isinstance(e, ast.IfExp):
+            r = _pure_expr(e.test) and _pure_expr(e.body) and _pure_expr(e.orelse)
+        else:
+            r = False
+        _PURE_CACHE[k] = r
+    return r
+
+
+_MERGE_CACHE = {}
+
+
+def _mergeable_block(body):
+    for st in body:
+        if isinstance(st, ast.Pass):
+            continue
+        if isinstance(st, ast.Assign):
+            if not (all(isinstance(t, ast.Name) for t in st.targets) and _pure_expr(st.value)):
+                return False
+        elif isinstance(st, ast.Assert):
+            if not _pure_expr(st.test):
+                return False
+        elif isinstance(st, ast.If):
+            if not _mergeable_if(st):
+                return False
+        else:
+            return False
+    return True
+
+
+def _mergeable_if(st):
+    k = id(st)
+    r = _MERGE_CACHE.get(k)
+    if r is None:
+        r = _pure_expr(st.test) and _mergeable_block(st.body) and _mergeable_block(st.orelse)
+        _MERGE_CACHE[k] = r
+    return r
 
 
 _GEN_CACHE = {}
